@@ -249,7 +249,7 @@ def obligations_converter(rep, repo, m):
     cons = "angular.AngularGrid.convert_angular_sizes_to_degrees"
     loop = next((s for s in f.node.body if isinstance(s, ast.For)), None)
     if loop is None:
-        raise AnalysisError(f"unrecognised idiom: {cons} has no loop over the distinct sizes")
+        return _converter_vectorised(rep, repo, m, f, cons)
     it = norm(loop.iter)
     var = norm(loop.target)
     param = f.params[0]
@@ -288,6 +288,56 @@ def obligations_converter(rep, repo, m):
         rep.violation("O5.converter-positions", cons, "store",
                       f"`{norm(store)[:120]}`: the resolved degree must be written at exactly the positions "
                       f"where {param} == {var}", repo.rel("angular", store))
+
+
+def _converter_vectorised(rep, repo, m, f, cons):
+    """Idiom B: `DEGS[np.searchsorted(SIZES, sizes)]` over the keys/values of the dispatched table."""
+    defs = {}
+    for s in ast.walk(f.node):
+        if isinstance(s, ast.Assign) and len(s.targets) == 1 and isinstance(s.targets[0], ast.Name):
+            defs.setdefault(s.targets[0].id, []).append(s.value)
+
+    def resolve(e, depth=0):
+        while isinstance(e, ast.Name) and e.id in defs and len(defs[e.id]) == 1 and depth < 6:
+            e = defs[e.id][0]
+            depth += 1
+        return e
+    ret = next((s for s in ast.walk(f.node) if isinstance(s, ast.Return) and s.value is not None), None)
+    v = resolve(ret.value) if ret is not None else None
+    if not (isinstance(v, ast.Subscript)):
+        raise AnalysisError(f"unrecognised idiom: {cons} neither loops over the distinct sizes nor returns TABLE[index]")
+    idx = resolve(v.slice)
+    vals = resolve(v.value)
+    clamp = None
+    while isinstance(idx, ast.Call) and norm(idx.func) in ("np.minimum", "np.clip", "np.maximum", "min") :
+        clamp = idx
+        inner = [a for a in idx.args if "searchsorted" in norm(resolve(a))]
+        if not inner:
+            break
+        idx = resolve(inner[0])
+    if not (isinstance(idx, ast.Call) and norm(idx.func) in ("np.searchsorted", "numpy.searchsorted") and len(idx.args) >= 2):
+        raise AnalysisError(f"unrecognised idiom: {cons} index `{norm(idx)[:80]}` is not np.searchsorted(keys, sizes)")
+    keys = resolve(idx.args[0])
+    side = next((norm(k.value) for k in idx.keywords if k.arg == "side"), "'left'")
+    where = repo.rel("angular", idx)
+    ktxt, vtxt = norm(keys), norm(vals)
+    same_table = ".keys()" in ktxt and ".values()" in vtxt and ktxt.replace(".keys()", "") == vtxt.replace(".values()", "")
+    npoints_table = "NPOINTS" in ktxt or any("NPOINTS" in norm(x) for x in ast.walk(f.node) if isinstance(x, ast.Dict))
+    if same_table and npoints_table:
+        rep.ok("O5.converter-uses-resolver", cons, where, f"vectorised lower bound over {ktxt[:60]}")
+    else:
+        rep.violation("O5.converter-uses-resolver", cons, "table",
+                      f"sizes are searched in `{ktxt[:70]}` but degrees taken from `{vtxt[:70]}`: not the keys/values of one "
+                      f"size->degree table", where)
+    if side != "'left'":
+        rep.violation("O5.converter-positions", cons, "side",
+                      f"np.searchsorted(..., side={side}) maps an exactly supported size to the next larger grid", where)
+    elif clamp is not None:
+        rep.violation("O5.converter-positions", cons, "clamp",
+                      f"`{norm(clamp)[:90]}` clamps the position: sizes above the largest supported one are silently mapped to "
+                      f"the largest grid instead of being rejected, so the converter disagrees with the resolver", where)
+    else:
+        rep.ok("O5.converter-positions", cons, where, "element-wise lower bound; out-of-range positions raise IndexError")
 
 
 def obligations_constructors(rep, repo, m):
